@@ -32,14 +32,25 @@ type vfC42Event struct {
 }
 
 // vfC42Call performs one unary call on conn and checks the answer is its own.
-func vfC42Call(x *venum.X, conn net.Conn, id string, xval int64, cls string) bool {
+//
+// refused, when non-nil, makes "the server hung up without answering" a counted event instead of a
+// failure (a connection the serve-start hook turned away).
+func vfC42Call(x *venum.X, conn net.Conn, id string, xval int64, cls string, refused *int) bool {
 	req := vfXReq("inc", xval, MetaRequestID, id)
 	if _, err := conn.Write(req); err != nil {
+		if refused != nil {
+			*refused++
+			return false
+		}
 		x.Failf(cls+":write-failed", "client %s could not write its request: %v", id, err)
 		return false
 	}
 	rd, err := ipc.NewReader(conn)
 	if err != nil {
+		if refused != nil {
+			*refused++
+			return false
+		}
 		x.Failf(cls+":no-response", "client %s got no response stream: %v", id, err)
 		return false
 	}
@@ -72,7 +83,6 @@ func TestVerif_C42_Sched(t *testing.T) {
 	defer venum.Finish(t)
 	behaviours := []string{"call-close", "call-hold-call", "late-call", "hold-open-silent", "two-calls"}
 	nClients := venum.QT(2, 3)
-	connRe := regexp.MustCompile(`#(\d+)`)
 	venum.Explore(t, venum.Cfg{Name: "listener-schedules", PreemptBound: venum.QT(2, 2), Shardable: true, CheckDeterminism: true}, func(x *venum.X) {
 		transport := x.Pick("transport", "unix", "tcp")
 		idle := []time.Duration{0, 100 * time.Second, 30 * time.Second}[x.Choose(3, "idle")]
@@ -80,10 +90,49 @@ func TestVerif_C42_Sched(t *testing.T) {
 		for i := range beh {
 			beh[i] = behaviours[x.Choose(len(behaviours), fmt.Sprintf("client%d", i))]
 		}
+		vfC42Scenario(x, transport, idle, beh, 0)
+	})
+	// The serve-start hook turns the first connection away (and succeeds from then on): three
+	// clients, so that one can be refused, one can stay open and one can come and go.
+	few := []string{"call-close", "hold-open-silent"}
+	venum.Explore(t, venum.Cfg{Name: "first-connection-refused-by-start-hook", PreemptBound: 2, Shardable: true, CheckDeterminism: true}, func(x *venum.X) {
+		transport := x.Pick("transport", "unix", "tcp")
+		idle := []time.Duration{100 * time.Second, 30 * time.Second}[x.Choose(2, "idle")]
+		beh := make([]string, 3)
+		for i := range beh {
+			beh[i] = few[x.Choose(len(few), fmt.Sprintf("client%d", i))]
+		}
+		vfC42Scenario(x, transport, idle, beh, 1)
+	})
+}
+
+var vfC42ConnRe = regexp.MustCompile(`#(\d+)`)
+
+// vfC42Scenario runs one listener with len(beh) clients; the serve-start hook fails for the first
+// hookFailures connections.
+func vfC42Scenario(x *venum.X, transport string, idle time.Duration, beh []string, hookFailures int) {
+	{
+		nClients := len(beh)
+		connRe := vfC42ConnRe
+		var refusedCount int
+		var refused *int
+		if hookFailures > 0 {
+			refused = &refusedCount
+		}
 		cls := "C42:" + transport
 		vnet.Reset()
 		vnet.ResetConns()
 		s := NewServer()
+		if hookFailures > 0 {
+			hookRuns := 0
+			s.SetServeStartHook(func(kind TransportKind, caps map[string]bool) error {
+				hookRuns++
+				if hookRuns <= hookFailures {
+					return fmt.Errorf("verif: not ready yet")
+				}
+				return nil
+			})
+		}
 		Unary(s, "inc", func(ctx context.Context, cc *CallContext, p VfXParams) (int64, error) {
 			vsched.Point("handler")
 			return p.X + 1000, nil
@@ -125,17 +174,17 @@ func TestVerif_C42_Sched(t *testing.T) {
 					defer conn.Close()
 					switch beh[i] {
 					case "call-close", "late-call":
-						if vfC42Call(x, conn, id+"a", int64(i*10+1), cls) {
+						if vfC42Call(x, conn, id+"a", int64(i*10+1), cls, refused) {
 							okCalls++
 						}
 					case "two-calls":
-						if vfC42Call(x, conn, id+"a", int64(i*10+1), cls) && vfC42Call(x, conn, id+"b", int64(i*10+2), cls) {
+						if vfC42Call(x, conn, id+"a", int64(i*10+1), cls, refused) && vfC42Call(x, conn, id+"b", int64(i*10+2), cls, refused) {
 							okCalls++
 						}
 					case "call-hold-call":
-						if vfC42Call(x, conn, id+"a", int64(i*10+1), cls) {
+						if vfC42Call(x, conn, id+"a", int64(i*10+1), cls, refused) {
 							vtime.Sleep(hold)
-							if vfC42Call(x, conn, id+"b", int64(i*10+2), cls) {
+							if vfC42Call(x, conn, id+"b", int64(i*10+2), cls, refused) {
 								okCalls++
 							}
 						}
@@ -145,7 +194,7 @@ func TestVerif_C42_Sched(t *testing.T) {
 				}))
 			}
 			vsched.Join(ts...)
-			vtime.Sleep(1000 * time.Second) // let any armed idle timer fire
+			vtime.Sleep(1000 * time.Second)             // let any armed idle timer fire
 			events = append([]string{}, vnet.Events...) // before the scheduler unwinds the server thread
 		})
 		if res.Verdict != "" {
@@ -198,8 +247,11 @@ func TestVerif_C42_Sched(t *testing.T) {
 				}
 			}
 		}
-		x.Outcome("%s idle=%v beh=%v ok=%d stopped=%v returned=%v", transport, idle, beh, okCalls, listenerClosedAt, serverReturned)
-	})
+		if refusedCount > hookFailures {
+			x.Failf(cls+":more-connections-refused-than-hook-failures", "%d clients were hung up on without an answer but the serve-start hook failed only %d time(s)", refusedCount, hookFailures)
+		}
+		x.Outcome("%s idle=%v beh=%v hookfail=%d ok=%d refused=%d stopped=%v returned=%v", transport, idle, beh, hookFailures, okCalls, refusedCount, listenerClosedAt, serverReturned)
+	}
 }
 
 func vfC42Dur(d time.Duration) string {
